@@ -74,6 +74,9 @@ pub struct Knobs {
     pub wide_signals: bool,
     /// declarations may call random()
     pub random_in_declares: bool,
+    /// an extra OUTPUT signal called `<name>_out` where <name> is a virtual signal, an output or an input (the suffix means
+    /// something only next to a bidirectional signal)
+    pub suffix_names: bool,
 }
 
 impl Knobs {
@@ -104,6 +107,7 @@ impl Knobs {
             wide_literals: false,
             wide_signals: false,
             random_in_declares: false,
+            suffix_names: false,
         }
     }
     /// flat-ish programs dominated by data rows
@@ -171,11 +175,22 @@ impl Gen {
         if b_bidir && self.rng.gen_bool(0.7) {
             cols.push(vec!["B_out".into()]);
         }
+        if self.k.suffix_names && self.rng.gen_bool(0.7) {
+            let mut bases: Vec<String> = virtuals.clone();
+            bases.extend(virtuals.clone());
+            bases.extend(outs.clone());
+            bases.push("A".into());
+            let name = format!("{}_out", bases.choose(&mut self.rng).unwrap());
+            supplied.push(Sig::output(&name, 4));
+            if self.rng.gen_bool(0.85) {
+                cols.push(vec![name]);
+            }
+        }
         for o in outs {
             cols.push(vec![o]);
         }
         for v in &virtuals {
-            if self.rng.gen_bool(0.7) {
+            if self.rng.gen_bool(if self.k.suffix_names { 0.4 } else { 0.7 }) {
                 cols.push(vec![v.clone()]);
             }
         }
